@@ -331,6 +331,10 @@ class Interp:
                     arr.e[k] = self.binop(st.op, arr.get(k), rhs)
                 return None
             cur = self.expr(st.target, env)
+            if isinstance(cur, Arr) and isinstance(rhs, Cx):
+                for k in cur.indices():       # in place, element by element (mat *= 0)
+                    cur.e[k] = self.binop(st.op, cur.get(k), rhs)
+                return None
             self.assign(st.target, self.binop(st.op, cur, rhs), env)
             return None
         if isinstance(st, ast.If):
@@ -382,6 +386,8 @@ class Interp:
         items = list(sl.elts) if isinstance(sl, ast.Tuple) else [sl]
         if items and isinstance(items[0], ast.Constant) and items[0].value is Ellipsis:
             items = items[1:]
+            if not items:
+                return arr.indices()  # mat[...]  (whole array)
         elif len(items) == 1 and isinstance(items[0], ast.Slice) and items[0].lower is None and items[0].upper is None:
             return arr.indices()      # mat[:]  (whole array)
         else:
@@ -554,6 +560,13 @@ class Interp:
                         return Cx(rfun(name, a.re))
                     if name == "atleast_1d":
                         return args[0]
+                    if name in ("conj", "conjugate") and len(args) == 1:
+                        v = args[0]
+                        if isinstance(v, Cx):
+                            return cconj(v)
+                        if isinstance(v, Arr):
+                            return v.map(cconj)
+                        raise Unsupported("conj of %s" % type(v).__name__)
                     if name in ("zeros", "ndarray"):
                         sh = args[0]
                         if isinstance(sh, tuple) and sh and sh[0] == "shape+":
